@@ -272,7 +272,11 @@ class System:
             alias.setdefault(id(sc.model.points), []).append((m, s))
         alias.setdefault(id(impl.base.points), []).append(("base",))
         part = tuple(sorted(tuple(v) for v in alias.values()))
-        return (st, tuple(memo), tuple(live), part, tuple(sorted(ref.tainted)), impl.b.session_state is None)
+        # every other container the scenario objects, their models and the base model hold (explore.hidden_shape): a table the library
+        # builds lazily keeps histories apart when it differs
+        hidden = tuple((explore.hidden_shape(impl.b.get_scenario(m, s)), explore.hidden_shape(impl.b.get_scenario(m, s).model)) for (m, s) in sorted(ref.sc))
+        hidden += (explore.hidden_shape(impl.base),)
+        return (st, tuple(memo), tuple(live), part, tuple(sorted(ref.tainted)), impl.b.session_state is None, hidden)
 
     def dispose(self, impl):
         try:
